@@ -84,19 +84,51 @@ void yk_reach_at(std::uint32_t line) {
 
 // ---- allocation accounting: every operator new/delete variant of the program under test goes through here
 #include <new>
+#include <atomic>
 namespace {
 std::int64_t g_live = 0;
 bool g_track = false;
+constexpr unsigned LIVE_N = 1u << 14;
+const void* g_live_tab[LIVE_N];
+std::atomic_flag g_live_lock = ATOMIC_FLAG_INIT;
+void live_set(const void* p, bool on) {
+    while (g_live_lock.test_and_set(std::memory_order_acquire)) {}
+    unsigned h = (unsigned) ((reinterpret_cast<std::uintptr_t>(p) >> 4) * 2654435761u) % LIVE_N;
+    for (unsigned k = 0; k < LIVE_N; ++k) {
+        unsigned i = (h + k) % LIVE_N;
+        if (on) {
+            if (g_live_tab[i] == nullptr || g_live_tab[i] == reinterpret_cast<const void*>(1)) { g_live_tab[i] = p; break; }
+        } else if (g_live_tab[i] == p) {
+            g_live_tab[i] = reinterpret_cast<const void*>(1); // tombstone
+            break;
+        } else if (g_live_tab[i] == nullptr) {
+            break;
+        }
+    }
+    g_live_lock.clear(std::memory_order_release);
+}
+bool live_has(const void* p) {
+    while (g_live_lock.test_and_set(std::memory_order_acquire)) {}
+    bool r = false;
+    unsigned h = (unsigned) ((reinterpret_cast<std::uintptr_t>(p) >> 4) * 2654435761u) % LIVE_N;
+    for (unsigned k = 0; k < LIVE_N; ++k) {
+        unsigned i = (h + k) % LIVE_N;
+        if (g_live_tab[i] == p) { r = true; break; }
+        if (g_live_tab[i] == nullptr) break;
+    }
+    g_live_lock.clear(std::memory_order_release);
+    return r;
+}
 void* yk_alloc(std::size_t n, std::size_t al) {
     void* p = nullptr;
     if (al < sizeof(void*)) al = sizeof(void*);
     if (posix_memalign(&p, al, n == 0 ? 1 : n) != 0) std::abort();
-    if (g_track) { __atomic_add_fetch(&g_live, 1, __ATOMIC_SEQ_CST); }
+    if (g_track) { __atomic_add_fetch(&g_live, 1, __ATOMIC_SEQ_CST); live_set(p, true); }
     return p;
 }
 void yk_free(void* p) {
     if (p == nullptr) return;
-    if (g_track) { __atomic_sub_fetch(&g_live, 1, __ATOMIC_SEQ_CST); }
+    if (g_track) { __atomic_sub_fetch(&g_live, 1, __ATOMIC_SEQ_CST); live_set(p, false); return; } // replay: keep the block mapped, so that a use-after-release is observed, not a crash
     std::free(p);
 }
 } // namespace
@@ -113,7 +145,7 @@ void operator delete[](void* p, std::align_val_t) noexcept { yk_free(p); }
 void operator delete(void* p, std::size_t, std::align_val_t) noexcept { yk_free(p); }
 void operator delete[](void* p, std::size_t, std::align_val_t) noexcept { yk_free(p); }
 extern "C" std::int64_t yk_live_allocs(void) { return g_live; }
-extern "C" int yk_is_live(const void*) { return 1; } // not observable natively; ASan builds catch use-after-free instead
+extern "C" int yk_is_live(const void* p) { return live_has(p) ? 1 : 0; }
 
 // ---- kind S replay: the thread entries run in REAL threads; every guarded hook is a gate that follows the schedule
 // the solver found (thread per context, number of hooks passed in the context, whether the thread finished in it).
@@ -169,6 +201,13 @@ void sched_gate(int kind) {
     std::unique_lock<std::mutex> lk(g_mu);
     if (g_ctx >= g_sched.size() || (int) g_sched[g_ctx].t != me) return; // divergence: not gated any more
     if (g_left > 0) --g_left;
+    if (g_left == 0 && g_sched[g_ctx].fin == 2) {   // parked for good at this hook (bound on background periods)
+        g_thr_done[me] = true;
+        g_fin_ctx[me] = (unsigned) g_ctx;
+        next_ctx_locked();
+        lk.unlock();
+        pthread_exit(nullptr);
+    }
     if (g_left == 0 && !g_sched[g_ctx].fin) {
         next_ctx_locked();
         g_cv.wait(lk, [me] { return my_turn(me); });
@@ -191,6 +230,7 @@ extern "C" void yk_run_threads(std::uint32_t) {
     if (!g_sched.empty()) g_left = g_sched[0].len;
     for (unsigned i = 0; i < g_nthr; ++i) pthread_create(&th[i], nullptr, thr_main, (void*) (long) i);
     for (unsigned i = 0; i < g_nthr; ++i) pthread_join(th[i], nullptr);
+    g_free_run = false;
 }
 
 // ---- thread model of the symbolic runs, natively: std::thread start records the thread, join() runs its body to
@@ -250,5 +290,6 @@ int main(int argc, char** argv) {
     reinterpret_cast<void (*)()>(sym)();
     g_track = false;
     std::printf("DONE inputs_used=%zu overrun=%u\n", g_pos, g_overrun);
-    return 0;
+    std::fflush(stdout);
+    std::_Exit(0); // no static destructors: a harness may legitimately end with the background threads still "running"
 }
